@@ -470,6 +470,7 @@ func (h *harness) liveCase(rng *lib.RNG, idx int) {
 				o := OpSpec{Op: "state", Head: height() + 1, Block: e.Block.Number}
 				scn.Ops = append(scn.Ops, o)
 				r.step(opi, o)
+				r.reverify(opi, "state-read") // attribute a write made by a state read to the state read
 				opi++
 			}
 			if bh, err := node.bc.BlockHeaderHashByNumber(height()); err == nil && len(held) < 12 {
